@@ -3,7 +3,9 @@
 library is built from /repo's CURRENT working tree with ASan/UBSan and each demonstration (native/repro/<name>.c: an API-level
 program that drives the public interface into the situation the contract clause is about) is run.  A demonstration that fails is a
 concrete failing input for the real code; its output goes into the replay file.  These inputs are fixed regression inputs chosen per
-contract clause, not a transcription of the solver's counterexample; when none of them fails the line stays no-failing-input-found."""
+contract clause, not a transcription of the solver's counterexample; when none of them fails the line stays no-failing-input-found.
+Sets with a `cex` entry additionally replay the solver's counterexample itself: the named trace variables are read from the trace and
+passed to a native program (run_cex)."""
 import os
 import subprocess
 import tempfile
@@ -28,6 +30,27 @@ def cleanup():
     d = _cache.get("dir")
     if d:
         shutil.rmtree(d, ignore_errors=True)
+
+
+def run_cex(name, args):
+    """Counterexample replay: native/repro/<name>.c takes the values of the verifier's counterexample on its command line and checks the
+    real library's behaviour on that input against the property statement.  returns (reproduced, text)"""
+    d = _lib()
+    if not d:
+        return False, "native build of the real library failed: %s" % _cache.get("err", "")
+    exe = os.path.join(d, name + ".exe")
+    c = subprocess.run(["clang", "-g", "-fsanitize=address,undefined", "-fno-sanitize-recover=undefined", "-I" + d, "-I" + os.path.join(VERIF, "native", "repro"),
+                        os.path.join(VERIF, "native", "repro", name + ".c"), os.path.join(d, "libyaep_san.a"), "-o", exe], capture_output=True, text=True, timeout=300)
+    if c.returncode != 0:
+        return False, "%s: does not compile: %s" % (name, c.stderr[-300:])
+    try:
+        r = subprocess.run([exe] + [str(a) for a in args], capture_output=True, text=True, timeout=120)
+        rc, txt = r.returncode, (r.stdout + r.stderr)
+    except subprocess.TimeoutExpired:
+        rc, txt = -9, "timeout"
+    keep = "\n".join(l for l in txt.split("\n") if l and not l.startswith("    #"))[:1500]
+    return rc not in (0, 2), "$ native/repro/%s %s (the verifier's counterexample on the real library from %s, ASan+UBSan) -> exit %d\n%s" % (
+        name, " ".join(str(a) for a in args), os.environ.get("VERIF_REPO_SRC", "/repo/src"), rc, keep)
 
 
 def run(demos):
